@@ -14,7 +14,11 @@ THEOREMS = {
             "Backend.C20_quiet_idle_poll_retains_live", "Backend.C20_reclaimed_delivered", "Backend.C20_narrow_counter_1bit",
             "Backend.C20_narrow_counter_2bit", "Backend.PC.CInv_runOps",
             "Obligations.BackendC.invalid_counter_wide", "Obligations.BackendC.c20_structure",
-            "Obligations.BackendC.C20_counter_extracted", "Obligations.BackendC.C20_early_return_extracted"],
+            "Obligations.BackendC.C20_counter_extracted", "Obligations.BackendC.C20_early_return_extracted",
+            # shrink half (unbounded-queue chain model, Props/C20Shrink.lean, shared with C02)
+            "Uspsc.C20_shrink_reported_capacity", "Uspsc.C20_shrink_at_most_half", "Uspsc.C20_shrink_noop",
+            "Uspsc.C02_shrink_reports", "Uspsc.C20_shrink_capacity_one_degenerate", "Uspsc.C20_shrink_loses_nothing",
+            "Uspsc.C20_shrink_old_node_freed_after_drained", "Uspsc.C02_nextPow2_spec", "Uspsc.C02_trace_fifo"],
     "C17": ["Backend.C17_erased_logger_has_no_record", "Backend.C17_erase_only_when_drained",
             "Backend.C17_erase_step_guarded", "Backend.C17_hoisted_check_erases_queued_logger",
             "Backend.C17_dead_sink_unreferenced", "Backend.C17_no_use_after_dtor", "Backend.C17_alive_sink_no_dtor",
@@ -35,7 +39,7 @@ MODULES = {
     "C07": ["QuillModel.Props.C07Drain"],
     "C16": ["QuillModel.Props.C16"],
     "C17": ["QuillModel.Props.C17", "QuillModel.Props.C17Removal"],
-    "C20": ["QuillModel.Props.C20"],
+    "C20": ["QuillModel.Props.C20", "QuillModel.Props.C20Shrink"],
 }
 OBLIG = ["QuillModel.Obligations.BackendC"]
 OBLIG_BY_PROP = {"C16": ["QuillModel.Obligations.BackendC_C16", "QuillModel.Obligations.BackendC_Common"], "C20": ["QuillModel.Obligations.BackendC_C20", "QuillModel.Obligations.BackendC_Common"],
